@@ -80,6 +80,10 @@ pub struct Observation {
 }
 
 pub fn observe(src: &str, stdin: &[u8], ctx: &mut Ctx) -> Option<(Observation, Vec<Vec<String>>)> {
+    observe_opt(src, stdin, ctx, true)
+}
+
+pub fn observe_opt(src: &str, stdin: &[u8], ctx: &mut Ctx, do_exec: bool) -> Option<(Observation, Vec<Vec<String>>)> {
     let parsed = mon::parse_guarded(src, 1000, true).ok()?;
     match parsed.result {
         Err(e) => Some((Observation { parse: format!("ERR {}", e.text), lint: String::new(), stdout: vec![], result: String::new() }, vec![])),
@@ -89,6 +93,9 @@ pub fn observe(src: &str, stdin: &[u8], ctx: &mut Ctx) -> Option<(Observation, V
                 Ok(d) => format!("{:?}", d),
                 Err(p) => format!("PANIC {}", p.signature()),
             };
+            if !do_exec {
+                return Some((Observation { parse, lint, stdout: vec![], result: String::new() }, vec![]));
+            }
             let opts = ExecOpts { fuel: 50_000, log_events: false, log_dict: true, trap: true };
             match mon::exec_guarded(&prog, stdin, &opts) {
                 ExecOutcome::Done(run) => {
@@ -108,9 +115,10 @@ pub fn observe(src: &str, stdin: &[u8], ctx: &mut Ctx) -> Option<(Observation, V
 pub fn check_repeats(ctx: &mut Ctx, src: &str, stdin: &[u8], reps: usize, origin: &str, entries: usize) {
     let mut first: Option<Observation> = None;
     let mut raw_orders: Vec<Vec<Vec<String>>> = Vec::new();
+    let do_exec = origin != "lint_dense";
     for i in 0..reps {
         ctx.eval();
-        let (obs, orders) = match observe(src, stdin, ctx) {
+        let (obs, orders) = match observe_opt(src, stdin, ctx, do_exec) {
             Some(x) => x,
             None => {
                 ctx.count("parse_panicked_skipped");
@@ -210,6 +218,26 @@ pub fn run(ctx: &mut Ctx) {
             ctx.sample(case_src_in(&text, b""));
         }
         check_repeats(ctx, &text, b"", reps, "dictionary", entries);
+    });
+    // programs with several diagnostics on one line (parse + lint only: these are not meant to run)
+    let n = ctx.size(6_000, 150_000);
+    ctx.cases("lint_dense", n, |ctx, rng, _| {
+        let x = simple("Xeno");
+        let y = simple("Yara");
+        let mut ss = Vec::new();
+        let k = rng.range(1, 12);
+        for _ in 0..k {
+            ss.push(match rng.below(5) {
+                0 => put(var(&x), &x),
+                1 => Stmt::Assign { dest: Lhs::Ident(Ident::Name(x.clone())), op: None, value: vec![num(rng.below(9) as f64)] },
+                2 => Stmt::Assign { dest: Lhs::Ident(Ident::Name(x.clone())), op: Some(BinOp::Plus), value: vec![var(&x), var(&y), var(&y)] },
+                3 => say(bin(BinOp::Plus, var(&y), var(&y))),
+                _ => Stmt::Call { name: y.clone(), args: vec![var(&x), var(&x)] },
+            });
+        }
+        if let Ok(r) = render(&Program::single(ss), &Spelling::canonical(), rng) {
+            check_repeats(ctx, &r.text, b"", reps, "lint_dense", 0);
+        }
     });
     let n = ctx.size(6_000, 150_000);
     ctx.cases("corpus", n, |ctx, rng, _| {
